@@ -393,6 +393,8 @@ dt_get_yday(struct dt_d_s that)
 	}
 }
 
+static dt_ymd_t dt_conv_to_ymd(struct dt_d_s that);
+
 DEFUN int
 dt_get_bday(struct dt_d_s that)
 {
@@ -408,19 +410,17 @@ dt_get_bday(struct dt_d_s that)
 		}
 		return 0;
 	}
-	case DT_DAISY:
-		that.ymd = __daisy_to_ymd(that.daisy);
 	case DT_YMD:
 		return __ymd_get_bday(
 			that.ymd,
 			__make_bizda_param(BIZDA_AFTER, BIZDA_ULTIMO));
-	case DT_YMCW:
-		return __ymcw_get_bday(
-			that.ymcw,
-			__make_bizda_param(BIZDA_AFTER, BIZDA_ULTIMO));
-	default:
 	case DT_DUNK:
 		return 0;
+	default:
+		/* count them in the month of the calendar day */
+		return __ymd_get_bday(
+			dt_conv_to_ymd(that),
+			__make_bizda_param(BIZDA_AFTER, BIZDA_ULTIMO));
 	}
 }
 
@@ -441,15 +441,13 @@ dt_get_bday_q(struct dt_d_s that, dt_bizda_param_t bp)
 		}
 		return 0/*__bizda_to_bizda(that.bizda, ba, ref)*/;
 	}
-	case DT_DAISY:
-		that.ymd = __daisy_to_ymd(that.daisy);
 	case DT_YMD:
 		return __ymd_get_bday(that.ymd, bp);
-	case DT_YMCW:
-		return __ymcw_get_bday(that.ymcw, bp);
-	default:
 	case DT_DUNK:
 		return 0;
+	default:
+		/* count them in the month of the calendar day */
+		return __ymd_get_bday(dt_conv_to_ymd(that), bp);
 	}
 }
 
@@ -638,7 +636,8 @@ dt_conv_to_ywd(struct dt_d_s this)
 	daisy:
 		return __daisy_to_ywd(this.daisy);
 	case DT_BIZDA:
-		return __bizda_to_ywd(this.bizda, __get_bizda_param(this));
+		/* go by the calendar day the business day denotes */
+		return __ymd_to_ywd(__bizda_to_ymd(this.bizda));
 	case DT_YD:
 		return __yd_to_ywd(this.yd);
 	case DT_UMMULQURA:
@@ -677,6 +676,8 @@ dt_conv_to_yd(struct dt_d_s this)
 		return __ymcw_to_yd(this.ymcw);
 	case DT_YWD:
 		return __ywd_to_yd(this.ywd);
+	case DT_BIZDA:
+		return __ymd_to_yd(__bizda_to_ymd(this.bizda));
 	case DT_UMMULQURA:
 		this.ldn = __ummulqura_to_ldn(this.ummulqura);
 		goto ldn;
